@@ -3,6 +3,7 @@ package main
 // C15: prism.ConvertImageToNRGBA / ToRGBA / ToRGBA64 against image/draw's Draw with the Src operator.
 
 import (
+	"runtime"
 	"bytes"
 	"fmt"
 	"image"
@@ -46,7 +47,7 @@ func srcPix(img image.Image) [][]byte {
 
 func init() {
 	commands["C15"] = func(c *ctx) {
-		c.res.Rule = "input images of every standard-library type (RGBA, RGBA64, NRGBA, NRGBA64, YCbCr x 6 subsamplings as sub-images at arbitrary chroma phase, Gray, Gray16, CMYK, Paletted, Alpha, Alpha16, Uniform-backed wrapper) with random and extreme contents, offset origins and sub-images with stride > width, sizes 0x0 to 9x9, parallelism in {1,2,3,7,16,rows+5}, x the three helpers; output bounds, every output byte against draw.Draw(Src) into a fresh image, identity on inputs already of the target type, input buffers unchanged; the per-pixel formulas of the model are compared with image/color on sampled (thorough: all 2^24) YCbCr triples; non-trivial = non-empty input"
+		c.res.Rule = "input images of every standard-library type (RGBA, RGBA64, NRGBA, NRGBA64, YCbCr x 6 subsamplings as sub-images at arbitrary chroma phase, Gray, Gray16, CMYK, Paletted, Alpha, Alpha16, Uniform-backed wrapper) with random and extreme contents, offset origins and sub-images with stride > width, sizes 0x0 to 9x9, parallelism in {1,2,3,7,16,rows+5} (and 17-30 row images with parallelism up to 28 under GOMAXPROCS=2), x the three helpers; output bounds, every output byte against draw.Draw(Src) into a fresh image, identity on inputs already of the target type, input buffers unchanged; the per-pixel formulas of the model are compared with image/color on sampled (thorough: all 2^24) YCbCr triples; non-trivial = non-empty input"
 		rng := c.rng
 		kinds := append([]string{}, srcKinds...)
 		kinds = append(kinds, "Alpha", "Alpha16", "NYCbCrA", "PalettedMixed")
@@ -54,15 +55,23 @@ func init() {
 		if c.thorough {
 			n = 60000
 		}
-		var jobs []job
-		for it := 0; it < n; it++ {
+		var jobs, tallJobs []job
+		for it := 0; it < n+n/20; it++ {
 			w, h := pick(rng, 0, 1, 1, 2, 3, 5, 9), pick(rng, 0, 1, 2, 3, 4, 6, 9, 10)
+			tall := it >= n // more rows than processors: run afterwards with GOMAXPROCS lowered to 2
+			if tall {
+				w, h = 1+rng.Intn(3), 17+rng.Intn(14)
+			}
 			kind := kinds[rng.Intn(len(kinds))]
 			r := randRect(rng, w, h)
 			seed := rng.Int63()
 			extreme := rng.Intn(4) == 0
 			it := it
-			jobs = append(jobs, func(wk *worker) {
+			dest := &jobs
+			if tall {
+				dest = &tallJobs
+			}
+			*dest = append(*dest, func(wk *worker) {
 				lr := rand.New(rand.NewSource(seed))
 				var img image.Image
 				switch kind {
@@ -138,7 +147,11 @@ func init() {
 					palBefore = append(color.Palette{}, k.Palette...)
 				}
 				b := img.Bounds()
-				for _, par := range []int{1, 2, 3, 7, 16, b.Dy() + 5} {
+				pars := []int{1, 2, 3, 7, 16, b.Dy() + 5}
+				if tall {
+					pars = append(pars, 28)
+				}
+				for _, par := range pars {
 					for _, helper := range []string{"NRGBA", "RGBA", "RGBA64"} {
 						in := map[string]interface{}{"helper": "ConvertImageTo" + helper, "input": kind, "bounds": b.String(), "parallelism": par, "seed": seed, "extreme": extreme, "case": it}
 						wk.res.count(helper+"<-"+kind, fmt.Sprint(it, par, helper), !b.Empty())
@@ -210,6 +223,9 @@ func init() {
 			})
 		}
 		c.runJobs(jobs)
+		oldProcs := runtime.GOMAXPROCS(2)
+		c.runJobs(tallJobs)
+		runtime.GOMAXPROCS(oldProcs)
 		// the model's per-pixel formulas against image/color
 		if c.runner != nil {
 			nn := 20000
